@@ -497,6 +497,7 @@ def ob_csr_accept(fns):
         ob.result, ob.reason = "inconclusive", "no Ok path of from_der was reached (vacuous)"
         return ob
     ob.result = "pass"
+    ob.battery, ob.battery_features = ("csr-accept", 22), ["x509-parser"]
     ob.bound_text = (f"<= {MAX_EXT} requested extensions; SubjectAlternativeName extensions with 2 (first) / 1 (second) general names; scenarios: "
                      + "; ".join(f"{n}: {t}" for n, t, _ in SCENARIOS) + f"; {n_ok} Ok paths; foreign struct layout from {LAYOUT_SOURCE}")
     return ob
